@@ -67,7 +67,8 @@ class HypChooser(Chooser):
 class Recorder(object):
     def __init__(self):
         self.events = []
-        self.who = lambda: getattr(threading.current_thread(), 'vname', 'main')
+        from .sched import current_name
+        self.who = current_name
 
     def ev(self, kind, **f):
         f['ev'] = kind
@@ -385,6 +386,7 @@ class SimDevice(object):
         self.epoch = 0
         self.nframes = 0
         self.refuse_open = lambda dest: False
+        self.syms_of = None          # callable(payload) -> list of symbol codes (model-scale scenarios)
 
     # -- bookkeeping
     def session_reset(self):
@@ -424,8 +426,9 @@ class SimDevice(object):
         meta['epoch'] = self.epoch
         self.wire.append(meta)
         h = wire.parse_header(fr[:24])
-        self.rec.ev('dv', t='dev', cmd=wire.WORD_CMD.get(h['cmdw'], '?'), a0=wire.limbs(h['a0']), a1=wire.limbs(h['a1']), n=self.nframes,
-                    plen=h['len'], unit=meta.get('unit', 0))
+        meta['pk'] = dict(cmd=wire.WORD_CMD.get(h['cmdw'], '?'), a0=wire.limbs(h['a0']), a1=wire.limbs(h['a1']), n=self.nframes,
+                          plen=h['len'], unit=meta.get('unit', 0), syms=self.syms_of(fr[24:]) if self.syms_of else [])
+        self.rec.ev('dv', t='dev', **meta['pk'])
 
     # -- protocol
     def on_packet(self, h):
@@ -528,3 +531,13 @@ class SimDevice(object):
         c = self.chooser.pick('dev_next', [(x[0], x[1]) for x in r])
         self.emit(next(x for x in r if (x[0], x[1]) == c))
         return True
+
+
+def export(events, keep=None):
+    """Events -> JSON-able trace (private '_' fields dropped; optional filter on event kinds)."""
+    out = []
+    for e in events:
+        if keep is not None and e['ev'] not in keep:
+            continue
+        out.append({k: v for k, v in e.items() if not k.startswith('_')})
+    return out
